@@ -61,7 +61,7 @@ def make_spec(rng, idx=0):
         groups = rng.sample(list(EXTS.keys()), rng.randint(1, 3))
         spec["basetypes"].append({"name": name, "code": code, "folder": name.upper() + "S", "levels": levels, "groups": groups})
     spec["aliases"] = {"cache": ["abc", "vdb", "fur", "json"], "movie": ["mp4", "mov", "avi"]}
-    spec["third_path_config"] = rng.random() < 0.5
+    spec["third_path_config"] = rng.random() < 0.7
     return spec
 
 
@@ -158,7 +158,20 @@ def write_package(spec, directory):
         }
     fs_kp["project"] = {"{%s}" % P: "{%s:%s}" % (P, _closed([p.upper() for p in spec["projects"]]))}
 
-    def fs_conf(fname, sub):
+    # the third path configuration has its OWN value vocabulary on disk (other folder names)
+    mapping_alt = {P: {p.upper() + "_ARCHIVE": p for p in spec["projects"]},
+                   T: {bt["folder"] + "_LIB": bt["code"] for bt in spec["basetypes"]},
+                   S: {v + "_OLD": k for k, v in spec["states"].items()}}
+    fs_kp_alt = {}
+    for bt in spec["basetypes"]:
+        fs_kp_alt[bt["name"]] = {
+            "{%s}" % P: "{%s:%s}" % (P, _closed(list(mapping_alt[P].keys()))),
+            "{%s:%s}" % (T, bt["folder"]): "{%s:%s}" % (T, _closed([bt["folder"] + "_LIB"])),
+            "{%s}" % S: "{%s:%s}" % (S, _closed(list(mapping_alt[S].keys()))),
+        }
+    fs_kp_alt["project"] = {"{%s}" % P: "{%s:%s}" % (P, _closed(list(mapping_alt[P].keys())))}
+
+    def fs_conf(fname, sub, mapping=mapping, fs_kp=fs_kp):
         with open(os.path.join(directory, fname), "w") as f:
             f.write("from pathlib import Path\nimport copy\nfrom spil_sid_conf import key_patterns as _kp\n")
             f.write("project_root_path = Path(__file__).parent / 'data' / 'testing' / 'SPIL_PROJECTS' / %r / 'PROJECTS'\n" % sub)
@@ -172,7 +185,7 @@ def write_package(spec, directory):
     fs_conf("spil_fs_server_conf.py", "SERVER")
     configs = {"local": "spil_fs_conf", "server": "spil_fs_server_conf"}
     if spec["third_path_config"]:
-        fs_conf("spil_fs_cloud_conf.py", "CLOUD")
+        fs_conf("spil_fs_cloud_conf.py", "CLOUD", mapping_alt, fs_kp_alt)
         configs["cloud"] = "spil_fs_cloud_conf"
     with open(os.path.join(directory, "spil_data_conf.py"), "w") as f:
         f.write("from pathlib import Path\n")
